@@ -26,6 +26,7 @@ func rulesC06(c *Ctx, r *Report) {
 	rulesReaderEntry(c, r)
 	rulesScanAlias(c, r, true)
 	rulesLineTerminators(c, r, "C06")
+	rulesOpenedHandle(c, r)
 }
 
 // ---------------------------------------------------------------------------
@@ -856,6 +857,22 @@ func rulesG5Bytes(c *Ctx, r *Report, specs []g5spec, floor int, note string) {
 		}
 	}
 	r.floor("G5", nGroups, floor, note)
+}
+
+// rulesNoCustomSplit: no Scanner in the codec packages replaces bufio.ScanLines.
+func rulesNoCustomSplit(c *Ctx, r *Report) {
+	nSplit := 0
+	for _, f := range formatFuncs(c) {
+		instrs(f, func(in ssa.Instruction) {
+			if ci, ok := in.(ssa.CallInstruction); ok && methIs(ci.Common().StaticCallee(), "bufio", "Scanner", "Split") {
+				nSplit++
+				r.violated("G5", fname(f), "Scanner.Split", c.pos(in.Pos()), "the scanner's split function is replaced: that every line is delivered whole, once, with exactly its terminator removed can no longer be assumed")
+			}
+		})
+	}
+	if nSplit == 0 {
+		r.holds("G5", "formats/fastq", "Scanner.Split never called", "", "the fastq scanner keeps bufio.ScanLines: every line is delivered whole, once, LF or CRLF removed")
+	}
 }
 
 func rulesG5Lines(c *Ctx, r *Report) {
